@@ -15,7 +15,18 @@ Tie + search (this file), on the real code:
     ACROSS processes in both directions: name, `__dask_keys__()`, chunks, dtype, Frisky output
     keys and the computed values must be unchanged;
   * sources documented as untokenizable (`from_array(..., name=False)`, a source object whose
-    tokenization raises): only per-instance stability and pickle stability are required.
+    tokenization raises): only per-instance stability and pickle stability are required;
+  * (props_ext/c07_sources.py, in every run) the grid of every `from_array` keyword value (lock= False / None / True /
+    SerializableLock(name) / SerializableLock() / threading.Lock / RLock, getitem=, meta=, asarray=, inline_array=,
+    name=, fancy=, chunks spellings), data containers, asarray / asanyarray / array, every creation function and the
+    seeded random API, from_delayed / from_map / fromfunction / from_npy_stack, `store` targets x locks x regions:
+    determinism is REQUIRED exactly when `dask.tokenize` tokenizes the equal-but-distinct argument objects
+    deterministically and equally (oracle independent of dask_array), else per-instance / pickle stability;
+  * in-place updates of one collection object (setitem, mask setitem, ufunc / reduction out=, compute_chunk_sizes,
+    `_chunks` setter) with READS of keys / Frisky keys / graph / name / chunks before and after them: the advertised
+    keys must be `(name, *block)` and produced by the graph, scheduling the graph for them must give the values,
+    the same program without the reads must give the same collection, and pickles taken after
+    read -> update and update -> read must round-trip (Props/C07Inplace.lean is the model of this clause).
 """
 from __future__ import annotations
 
@@ -34,6 +45,7 @@ import numpy as np
 
 from harness import core, programs
 from harness.props import C06 as N
+from harness.props_ext import c07_sources as S
 
 
 def translate(ctx):
@@ -67,6 +79,9 @@ def _tag(block, label, enc=b""):
 
 def apply_step(step, env, m, da_mode):
     op = step["op"]
+    if S.handles(step):
+        # from_array keywords / creation / random / store / reads and in-place updates (props_ext/c07_sources.py)
+        return S.apply_step(step, env, m, da_mode)
     # literal str / bytes arguments carried by blockwise / map_blocks nodes (their tokens must not depend on the process)
     if op == "mb_sort":
         a = env[step["args"][0]]
@@ -107,7 +122,22 @@ def run_np(prog):
 
 
 def has_exception(prog):
-    return any(st.get("exception") for st in prog)
+    """only per-instance and pickle stability are required: a source documented as untokenizable, or an argument
+    object that dask.tokenize itself cannot tokenize deterministically (oracle in c07_sources, independent of dask_array)"""
+    return any(st.get("exception") for st in prog) or S.nondet_reason(prog) is not None
+
+
+def exception_kind(prog):
+    return next((st["exception"] for st in prog if st.get("exception")), None) or S.nondet_reason(prog) or "none"
+
+
+def id_fallback_argument(prog):
+    return any(st["op"] == "store" and S.step_nondet(st) for st in prog)
+
+
+def deep(prog):
+    """programs with in-place updates: also schedule the graph for the ADVERTISED keys"""
+    return S.has_update(prog) or any(st["op"] == "compute_chunk_sizes" for st in prog)
 
 
 # dedicated probe (minimal program of a finding on the unchanged tree, kept in every run):
@@ -129,7 +159,17 @@ def _src(shape, chunks, **kw):
 PROBE_STR_KWARG = [_src([3, 4], [[2, 1], [2, 2]]), {"op": "mb_sort", "args": ["v1"], "kind": "stable", "out": "v2"}]
 PROBE_STR_ARG = [_src([3, 4], [[2, 1], [2, 2]]), {"op": "bw_einsum", "args": ["v1"], "out": "v2"}]
 PROBE_BYTES = [_src([5], [[2, 3]]), {"op": "mb_tag", "args": ["v1"], "label": "abc", "enc": "xy", "out": "v2"}]
-FIXED_PROBES = [PROBE_FUSED_ORDER, PROBE_STR_KWARG, PROBE_STR_ARG, PROBE_BYTES]
+# known finding `random:generator-choice-recompute`: Generator.choice puts live BitGenerator objects into the graph; the
+# minimal input is kept in every run (and Generator.choice is generated nowhere else)
+PROBE_CHOICE = [{"op": "create", "fn": "rng.choice", "dtype": "int64", "shape": [16], "chunks": [[16]], "seed": 7, "p1": 0, "p2": 5, "out": "v1"}]
+# known finding `random:array-param-node-rebuilt`: a random call with a multi-chunk DASK-ARRAY argument consumes the root RNG
+# again whenever a rewrite re-creates its node: rebuild / pickle round trip / dask.compute(x) give other values under the
+# same name.  Minimal input kept in every run; dask-array arguments to random functions are generated nowhere else.
+PROBE_RANDOM_ARRAY_ARG = [
+    {"op": "src", "shape": [4], "chunks": [[2, 1, 1]], "mul": 1, "off": 0, "mod": 1 << 40, "out": "v1"},
+    {"op": "create", "fn": "rs.normal_arr", "args": ["v1"], "seed": 0, "shape": [4], "chunks": [[2, 2]], "out": "v2"},
+]
+FIXED_PROBES = [PROBE_FUSED_ORDER, PROBE_STR_KWARG, PROBE_STR_ARG, PROBE_BYTES, PROBE_CHOICE, PROBE_RANDOM_ARRAY_ARG]
 
 
 def config_programs(rng, n):
@@ -184,9 +224,12 @@ def flat_keys(x):
     return [str(k) for k in flatten(x.__dask_keys__())]
 
 
-def observe(x, compute=True):
-    """Everything the property says must survive: name, keys, chunks, dtype, Frisky keys, graph keys, values."""
+def observe(x, compute=True, deep=False):
+    """Everything the property says must survive: name, keys, chunks, dtype, Frisky keys, graph keys, values.
+    `keys_belong`: every advertised key is (name, *block) and is produced by the graph; deep: the values obtained by
+    scheduling the graph for the advertised keys (what a scheduler that enumerated the keys would get)."""
     import dask
+    from dask.core import flatten
 
     out = {
         "name": x.name,
@@ -206,6 +249,19 @@ def observe(x, compute=True):
         out["fused_names"] = sorted({n._name for n in x._lowered_expr.walk() if type(n).__name__ == "FusedBlockwise"})
     except Exception as e:
         out["graph_keys"] = "err " + type(e).__name__
+    try:
+        keys = list(flatten(x.__dask_keys__()))
+        g = x.__dask_graph__()
+        foreign = [k for k in keys if not (isinstance(k, tuple) and k[0] == x.name)]
+        missing = [k for k in keys if k not in g]
+        out["keys_belong"] = "ok" if not foreign and not missing else (
+            f"key {foreign[0]} is not of collection {x.name}" if foreign else f"key {missing[0]} is not produced by the graph")
+        if deep and compute and out["keys_belong"] == "ok":
+            with dask.config.set(scheduler="sync"):
+                blocks = dask.get(dict(g), keys)
+            out["graph_values"] = h([val_hash(b) for b in blocks])
+    except Exception as e:
+        out["keys_belong"] = "err " + type(e).__name__
     if compute:
         try:
             with dask.config.set(scheduler="sync"):
@@ -231,13 +287,19 @@ out = {{}}
 for it in req["items"]:
     r = {{}}
     try:
+        dp = C07.deep(it["prog"])
         if not it.get("cfg"):
             env = C07.run_da(it["prog"])
             root = env[it["root"]]
             r["names"] = {{v: x.name for v, x in env.items()}}
-            r["built"] = C07.jsonable(C07.observe(root))
+            r["built"] = C07.jsonable(C07.observe(root, deep=dp))
             import cloudpickle
-            r["child_pickle"] = base64.b64encode(cloudpickle.dumps(root)).decode()
+            try:
+                r["child_pickle"] = base64.b64encode(cloudpickle.dumps(root)).decode()
+            except Exception:
+                if not C07.S.unpicklable(it["prog"]):
+                    raise
+                r["child_pickle"] = None
             del env, root
         for key in ("pickle_before", "pickle_after"):
             if it.get(key):
@@ -247,7 +309,7 @@ for it in req["items"]:
                     u = None
                     C07.clear_registries()
                 u = pickle.loads(base64.b64decode(it[key]))
-                r[key] = C07.jsonable(C07.observe(u))
+                r[key] = C07.jsonable(C07.observe(u, deep=dp))
     except Exception as e:
         r["error"] = type(e).__name__ + ": " + str(e)[:200]
     out[str(it["id"])] = r
@@ -286,7 +348,14 @@ def run(ctx, replay=None):
         "from_array(name=False) or a source object whose tokenization raises); each is built twice in-process, rebuilt in fresh "
         "subprocesses with other PYTHONHASHSEEDs, pickled with pickle and cloudpickle before and after its caches are populated, "
         "unpickled in-process (also with emptied singleton registries) and in the other process (both directions); "
-        "a case is distinct by (check kind, root op, exception kind)"
+        "a case is distinct by (check kind, root op, exception kind); PLUS in every run the grids of c07_sources: every from_array "
+        "keyword value (lock False/None/True/SerializableLock(name)/SerializableLock()/threading.Lock/RLock, getitem, meta, asarray, "
+        "inline_array, name, fancy, chunks spellings), every data container, asarray/asanyarray/array, every creation function and "
+        "seeded random API (Generator, RandomState, module level), from_delayed/from_map/fromfunction/from_npy_stack, store targets x "
+        "locks x regions, and in-place updates (setitem, mask setitem, ufunc out=, reduction out=, compute_chunk_sizes, _chunks setter) "
+        "x reads before/after (keys, Frisky keys, graph, name, chunks, lowered) -- each also compared with the same program without the "
+        "reads and scheduled by hand for the advertised keys; determinism is required exactly when dask.tokenize says the argument "
+        "objects tokenize deterministically and equally"
     )
     ctx.assumptions = [
         "dask.tokenize of NumPy data, tuples, ints, dtypes and module-level functions is a pure function of the value (trusted; exercised by the subprocess runs)",
@@ -297,6 +366,7 @@ def run(ctx, replay=None):
         "C07: pickle/cloudpickle and dask.tokenize are trusted; fresh-process determinism is sampled (other PYTHONHASHSEEDs), not proved",
     ]
     cfg_of = {}
+    ext_ids = set()
     if replay is not None:
         case = replay.get("case", replay)
         progs = [case["program"]] if "program" in case else []
@@ -335,6 +405,15 @@ def run(ctx, replay=None):
             except Exception:
                 continue
             progs.append(prog)
+        # ---- sources / creation / random / store / reads-and-in-place-updates (props_ext/c07_sources.py): the keyword grids
+        #      are enumerated in EVERY run, random combinations on top
+        ext = (S.source_programs(rng, apply_step, ctx.scale(10, 80)) + S.creation_programs(rng, apply_step, ctx.scale(4, 60))
+               + S.store_programs(rng, apply_step, ctx.scale(3, 30)) + S.inplace_programs(rng, apply_step, ctx.scale(8, 120)))
+        for label, prog in ext:
+            ctx.count(label)
+            ext_ids.add(len(progs))
+            progs.append(prog)
+        ctx.notes["extension_programs"] = dict(collections.Counter(l[0] for l, _ in ext))
 
     reg = N.Registry(ctx, 0)  # only for `isolated` (emptied registries); the constructor hook is NOT installed
     items = []
@@ -349,14 +428,16 @@ def run(ctx, replay=None):
                 continue
             kept.append(rec)
             # the fresh process always runs dask's DEFAULT configuration: for `cfg` programs sender and receiver differ
-            items.append({"id": pid, "prog": prog, "root": rec["root"], "pickle_before": rec["pickle_before"], "pickle_after": rec["pickle_after"], "cfg": bool(cfg)})
+            items.append({"id": pid, "prog": prog, "root": rec["root"], "pickle_before": rec["pickle_before"], "pickle_after": rec["pickle_after"], "cfg": bool(cfg),
+                          # grid programs of the extension streams visit ONE of the two other hash seeds (alternating), everything else both
+                          "one_seed": (pid % 2) if pid in ext_ids and ctx.tier == "quick" else None})
         # ---- fresh processes (parallel), every program under two other hash seeds
         seeds = [1, 4242]
         nchunk = ctx.scale(3, 6)
         jobs = []
         for s in seeds:
             for k in range(nchunk):
-                part = items[k::nchunk]
+                part = [it for it in items[k::nchunk] if it["one_seed"] is None or seeds[it["one_seed"]] == s]
                 if part:
                     jobs.append((part, s))
         with ThreadPoolExecutor(max_workers=ctx.scale(6, 8)) as ex:
@@ -373,7 +454,26 @@ def run(ctx, replay=None):
         ctx.sample({"kind": "program", "program": kept[len(kept) // 2]["prog"]})
 
 
+SIG_CHOICE = "random:generator-choice-recompute"  # known finding shared with C23
+SIG_RANDOM_ARRAY = "random:array-param-node-rebuilt"  # known finding shared with C23
+SIG_CHOICE_ARRAY = "random:choice-array-population-node-rebuilt"  # known finding shared with C23
+
+
 def fail(ctx, sig, rec, what, **kw):
+    # family found on the unchanged tree (reported): Generator.choice puts LIVE BitGenerator objects into the graph
+    # (`RandomChoiceGenerator.state_data = _spawn_bitgens(...)`, `_choice_rng` advances them in place): computing the
+    # same collection twice, a second build with the same name, and a pickle round trip give other values (and, when the
+    # node is re-created by a rewrite, other inner graph keys).  One narrow signature for the whole family.
+    d = kw.get("differences")
+    if isinstance(d, dict) and set(d) <= {"values", "graph_values", "graph_keys"} and "values" in d:
+        fns = {st["fn"] for st in rec["prog"] if st["op"] == "create"}
+        if fns & {"rng.choice", "rng.choice_a"}:
+            what = f"[{sig}] {what}"
+            sig = SIG_CHOICE
+        elif fns & set(S.ARRAY_ARG_FNS):
+            # sibling families (known): the root RNG is consumed again whenever a rewrite re-creates the node
+            what = f"[{sig}] {what}"
+            sig = SIG_CHOICE_ARRAY if "rs.choice_a" in fns else SIG_RANDOM_ARRAY
     case = {"program": rec["prog"], "root": rec["root"]}
     if rec.get("config"):
         case["config"] = rec["config"]
@@ -404,24 +504,41 @@ def diff(a, b, fields):
     return {f: (a.get(f), b.get(f)) for f in fields if a.get(f) != b.get(f)}
 
 
-FIELDS = ("name", "dask_keys", "chunks", "dtype", "frisky", "values")
+FIELDS = ("name", "dask_keys", "chunks", "dtype", "frisky", "values", "keys_belong")
 FIELDS_G = FIELDS + ("graph_keys",)
+FIELDS_DEEP = FIELDS_G + ("graph_values",)
+
+
+def build_without_reads(prog):
+    """the twin program: every `peek` step is an alias (nobody looked at keys / graph before the in-place updates)"""
+    S.STRIP_PEEKS = True
+    try:
+        return run_da(copy.deepcopy(prog))
+    finally:
+        S.STRIP_PEEKS = False
 
 
 def in_process(ctx, reg, pid, prog, stats, cfg=None):
     import cloudpickle
 
     exc = has_exception(prog)
+    dp = deep(prog)
+    fields_g = FIELDS_DEEP if dp else FIELDS_G
+    # what a PICKLE must keep.  Inner optimized graph keys are compared too, except when a store target / lock has no
+    # deterministic tokenization: a blockwise node re-created by a rewrite after unpickling then tokenizes the NEW
+    # instance by identity (documented `token_or_identity` fallback: per-instance only)
+    fields_p = tuple(f for f in fields_g if f != "graph_keys") if id_fallback_argument(prog) else fields_g
     try:
         envA = run_da(prog)
-        envB = run_da(copy.deepcopy(prog))
+        envB = run_da(copy.deepcopy(prog))  # envA stays alive: equal-but-distinct argument objects coexist
     except Exception as e:
         stats["build-exc"] += 1
+        ctx.notes.setdefault("build_exc_samples", {}).setdefault(type(e).__name__ + ": " + str(e)[:80], prog[-1]["op"])
         return None
     root = prog[-1]["out"]
-    rec = {"id": pid, "prog": prog, "root": root, "exception": exc, "op": prog[-1]["op"], "config": dict(cfg or {})}
+    rec = {"id": pid, "prog": prog, "root": root, "exception": exc, "op": prog[-1]["op"], "config": dict(cfg or {}), "deep": dp}
     A, B = envA[root], envB[root]
-    kind = next((st["exception"] for st in prog if st.get("exception")), "none")
+    kind = exception_kind(prog)
     ctx.count(("in-process", prog[-1]["op"], kind))
     # 1. pickle BEFORE anything is cached (remember which nodes had not resolved their chunks yet)
     try:
@@ -430,10 +547,12 @@ def in_process(ctx, reg, pid, prog, stats, cfg=None):
     except Exception:
         rec["chunks_unresolved_at_pickle"] = []
         rec["root_chunks_unresolved_at_pickle"] = False
+    picklable = True
+    p_before = {}
+    use_std = True
     try:
         rec["pickle_before"] = base64.b64encode(cloudpickle.dumps(A)).decode()
         p_before = {"cloudpickle": cloudpickle.dumps(A)}
-        use_std = True
         try:
             p_before["pickle"] = pickle.dumps(A)
         except Exception:
@@ -441,12 +560,23 @@ def in_process(ctx, reg, pid, prog, stats, cfg=None):
             use_std = False
             stats["stdlib-pickle-skipped(lambda in program)"] += 1
     except Exception as e:
-        stats["pickle-exc"] += 1
-        fail(ctx, "pickle:raises", rec, f"pickling the collection raises {type(e).__name__}: {str(e)[:120]}")
-        return None
+        if S.unpicklable(prog):
+            # an ARGUMENT of the program (a threading lock) cannot be pickled by anybody: a refusal, not a defect
+            stats["pickle-refused(unpicklable argument object)"] += 1
+            picklable = False
+            rec["pickle_before"] = None
+        else:
+            stats["pickle-exc"] += 1
+            fail(ctx, "pickle:raises", rec, f"pickling the collection raises {type(e).__name__}: {str(e)[:120]}")
+            return None
     # 2. same instance, same name twice; names of the two builds
     if A.name != envA[root].name or observe(A, compute=False)["name"] != A.name:
         fail(ctx, "name:unstable-per-instance", rec, "the same collection reports two names")
+    for st in prog:
+        # from_array(name="str"): the exact name is the caller's
+        if st["op"] == "src" and isinstance((st.get("fa") or {}).get("name"), str) and st["fa"].get("via", "from_array") == "from_array":
+            if not S.has_update(prog) and envA[st["out"]].name != st["fa"]["name"]:
+                fail(ctx, "name:exact-name-not-used", rec, f"from_array(name={st['fa']['name']!r}) is named {envA[st['out']].name!r}", var=st["out"])
     if not exc:
         for v in envA:
             ctx.traces += 1
@@ -455,25 +585,58 @@ def in_process(ctx, reg, pid, prog, stats, cfg=None):
                      var=v, name_a=envA[v].name, name_b=envB[v].name)
                 break
     # 3. observables (this populates the caches of A)
-    oA = observe(A)
+    oA = observe(A, deep=dp)
     if oA["values"].startswith("err") or str(oA["graph_keys"]).startswith("err"):
         stats["compute-exc(known families / refusals)"] += 1
+        ctx.notes.setdefault("compute_exc_ops", {}).setdefault(prog[-1]["op"], oA["values"] if oA["values"].startswith("err") else oA["graph_keys"])
         rec["obs"] = None
         rec["pickle_after"] = None
         return rec
     oA = jsonable(oA)
     rec["obs"] = oA
+    if S.is_random(prog):
+        # the same collection computed a second time
+        again = observe(A, deep=dp)["values"]
+        ctx.traces += 1
+        if again != oA["values"]:
+            fail(ctx, "same-collection:values-differ-between-computes", rec, "computing the same collection twice gives different values",
+                 differences={"values": [oA["values"], again]})
+    if oA["keys_belong"] != "ok":
+        fail(ctx, "keys:not-of-this-collection", rec, "an advertised key (__dask_keys__) " + oA["keys_belong"][4:] if oA["keys_belong"].startswith("key ") else "checking the advertised keys: " + oA["keys_belong"],
+             name=oA["name"], detail=oA["keys_belong"])
     try:
         want = run_np(prog)[root]
-        if val_hash(want) != oA["values"] and np.asarray(want).dtype == np.dtype(oA["dtype"]):
+        if not S.is_random(prog) and val_hash(want) != oA["values"] and np.asarray(want).dtype == np.dtype(oA["dtype"]):
             stats["value-differs-from-numpy(not this property)"] += 1
     except Exception:
         pass
     if not exc:
-        oB = jsonable(observe(B))
-        d = diff(oA, oB, FIELDS_G)
+        oB = jsonable(observe(B, deep=dp))
+        d = diff(oA, oB, fields_g)
         if d:
             fail(ctx, "build-twice:" + ",".join(sorted(d)), rec, "two in-process builds of one program differ", differences=jsonable(d))
+    # 3b. somebody READ keys / graph before an in-place update: the same program without those reads must give the same
+    #     collection (name, keys, Frisky keys, graph keys, values through the advertised keys)
+    if S.has_peek(prog) and not exc:
+        ctx.traces += 1
+        ctx.count(("read-before-update", tuple(st["op"] for st in prog if st["op"] in S.UPDATES or st["op"] == "compute_chunk_sizes"),
+                   tuple(st["what"] for st in prog if st["op"] == "peek")))
+        try:
+            envC = build_without_reads(prog)
+            oC = jsonable(observe(envC[root], deep=dp))
+        except Exception as e:
+            fail(ctx, "reads-change-collection:raises", rec, f"the program without its reads raises {type(e).__name__}: {str(e)[:120]}")
+            oC = None
+        if oC is not None:
+            d = diff(oA, oC, fields_g)
+            if d:
+                fail(ctx, "reads-change-collection:" + ",".join(sorted(d)), rec,
+                     "reading keys / graph / metadata of a collection before an in-place update changes what it advertises afterwards "
+                     "(compared with the same program without the reads)", differences=jsonable(d))
+    if not picklable:
+        rec["pickle_after"] = None
+        stats["in-process-ok(no pickle)"] += 1
+        return rec
     # 4. pickle AFTER caches are populated
     A.__dask_keys__()
     rec["pickle_after"] = base64.b64encode(cloudpickle.dumps(A)).decode()
@@ -488,17 +651,17 @@ def in_process(ctx, reg, pid, prog, stats, cfg=None):
                 try:
                     if isolated:
                         u = reg.isolated(lambda: pickle.loads(blob))
-                        oU = jsonable(reg.isolated(lambda: observe(u)))
+                        oU = jsonable(reg.isolated(lambda: observe(u, deep=dp)))
                     else:
                         u = pickle.loads(blob)
-                        oU = jsonable(observe(u))
+                        oU = jsonable(observe(u, deep=dp))
                 except Exception as e:
                     import traceback
 
                     fail(ctx, "pickle:roundtrip-raises", rec, f"unpickling/observing raises {type(e).__name__}: {str(e)[:160]}", when=when, lib=lib,
                          emptied_registries=isolated, traceback=traceback.format_exc()[-1800:])
                     return rec
-                d = diff(oA, oU, FIELDS_G)
+                d = diff(oA, oU, fields_p)
                 if d:
                     fail(ctx, "pickle:in-process:" + ",".join(sorted(d)), rec, "a pickled and unpickled collection differs from the original",
                          when=when, lib=lib, emptied_registries=isolated, differences=jsonable(d))
@@ -524,11 +687,14 @@ def cross_process(ctx, rec, r, seed, stats):
     cfg = rec.get("config") or {}
     # sender and receiver run DIFFERENT configurations: rebuilding there is another input, and the optimized graph may
     # legitimately differ; what a pickle must keep is name, keys, chunks, dtype, Frisky keys, values
-    fields = FIELDS if cfg else FIELDS_G
+    fields_g = FIELDS_DEEP if rec.get("deep") else FIELDS_G
+    fields = FIELDS if cfg else fields_g
+    if id_fallback_argument(rec["prog"]):
+        fields = tuple(f for f in fields if f != "graph_keys")
     # (i) rebuilt in the fresh process
     if not exc and not cfg:
         ctx.traces += 1
-        d = diff(oA, r["built"], FIELDS_G)
+        d = diff(oA, r["built"], fields_g)
         if d:
             sub = classify_graph_keys(oA, r["built"]) if set(d) == {"graph_keys"} else ""
             if sub:
@@ -542,6 +708,7 @@ def cross_process(ctx, rec, r, seed, stats):
     for key in ("pickle_before", "pickle_after"):
         if key in r:
             ctx.traces += 1
+            ctx.count(("to-fresh-process", key, bool(rec.get("deep"))))
             d = diff(oA, r[key], fields)
             if d and cfg:
                 # family found on the unchanged tree: the ROOT's chunks had never been looked at when it was pickled
@@ -569,10 +736,13 @@ def cross_process(ctx, rec, r, seed, stats):
     if cfg:
         stats["other-config-ok" if not cfg_failed else "other-config-differs"] += 1
         return
+    if r.get("child_pickle") is None:
+        stats["cross-process-ok(no pickle: unpicklable argument object)"] += 1
+        return
     try:
         with dask.config.set(cfg):
             u = pickle.loads(base64.b64decode(r["child_pickle"]))
-            oU = jsonable(observe(u))
+            oU = jsonable(observe(u, deep=bool(rec.get("deep"))))
     except Exception as e:
         fail(ctx, "pickle:from-fresh-process-raises", rec, f"unpickling the fresh process's collection raises {type(e).__name__}: {str(e)[:120]}")
         return
